@@ -1,5 +1,6 @@
 import PqModel.ConvertProofs
 import PqModel.ConvertAdded
+import PqModel.ConvertAddedTree
 
 /-! # C12 — Reading through a different but compatible schema only adds or drops columns
 
@@ -51,19 +52,47 @@ The mirror is right (as Parquet streams: `canon` erases the payload below the co
 definition level, which is all a writer stores) exactly when the borrowed entries happen to be the
 structure of the enclosing group, i.e.
 * the closest leaf sibling is REQUIRED (one entry `(x, r, d)` per instance of the group, `d` ≤ the
-  group's level): every added subtree is right (`added_next_to_required_partial`);
+  group's level): every added subtree is right (`added_next_to_required_partial`, and for whole
+  rows `convert_shred_added_partial`);
 * the closest leaf sibling is OPTIONAL and the added column is an optional LEAF of the same group
   (`added_optional_leaf_next_to_optional_partial`);
-* there is no leaf sibling and the group sits at definition level 0 (`added_without_sibling_partial`);
+* there is no leaf sibling and the group sits at definition level 0 (`added_without_sibling_partial`,
+  also part of `convert_shred_added_partial`);
 and no ancestor changed its repetition type (borrowed levels are not mapped through the tables).
-Outside these cases it is wrong: `decide` witnesses below (F19). -/
+Outside these cases it is wrong: `decide` witnesses below (F19: repeated or optional sibling with
+any other added shape, no leaf sibling below an optional or repeated group). -/
 
--- OPEN: convert_shred_added — the whole-row statement
---   `canon (maxDefsN tgt 0) (convertRow src tgt (shred src v)) = canon (maxDefsN tgt 0) (shred tgt (projN src tgt v))`
---   for targets that add fields satisfying the three conditions above (and delete/permute others).
---   Proved below: the added subtree in ONE instance of the enclosing group (`_partial`); missing: the
---   induction through repeated ancestors (distribution over list elements for the `lost` states),
---   which is the same argument as `lin_convN` / `absent_convN` for shared columns.
+-- OPEN: convert_shred_added at full strength — the statement below for EVERY target that adds
+--   fields. It is false for the code as it stands (F19 witnesses below). Proved:
+--   `convert_shred_added_partial` (whole rows, any depth incl. below repeated groups and lists)
+--   under `addN`: every added field sits in a source group whose closest leaf sibling is
+--   required, or that has no leaf child and sits at definition level 0; shared fields keep
+--   their repetition type. Not covered by the whole-row theorem, only per group instance
+--   (`added_optional_leaf_next_to_optional_partial`): optional leaf next to an optional sibling.
+
+/-- ADDED columns (together with deleted and permuted ones), whole rows: when every added field
+    satisfies `addOk` (closest leaf sibling of the enclosing source group is required; or no leaf
+    sibling and the group is at definition level 0), the converted row is, as Parquet streams,
+    the shredded projection: shared columns carry the source values and nesting, added columns are
+    null / empty / zero with the structure of their own ancestors. -/
+theorem convert_shred_added_partial (src tgt : PNode) (v : Val)
+    (hadd : addN 0 src tgt = true) (hwf : wfN (eraseN src) = true) (hconf : confN (eraseN src) v = true) :
+    canon (maxDefsN tgt 0) (convertRow src tgt (shred src v)) =
+      canon (maxDefsN tgt 0) (shred tgt (projN src tgt v)) :=
+  main_addN tgt .req lv0 src v 0 none hadd idLv0 hwf hconf (Nat.le_refl _)
+
+/-- non-vacuity: inside a repeated group `2 {5 required, 6 optional}` the target adds an optional
+    leaf 7 and a repeated group 8 {required 9} (closest sibling: the required leaf 5), at the root
+    a required leaf 4 next to the required leaf 3 (the smallest leaf name); field 10 is dropped. -/
+example :
+    let src : PNode := .group (.cons 10 .opt .leaf (.cons 2 .rpt (.group (.cons 5 .req .leaf (.cons 6 .opt .leaf .nil))) (.cons 3 .req .leaf .nil)))
+    let tgt : PNode := .group (.cons 4 .req .leaf (.cons 2 .rpt (.group (.cons 7 .opt .leaf (.cons 6 .opt .leaf
+      (.cons 8 .rpt (.group (.cons 9 .req .leaf .nil)) (.cons 5 .req .leaf .nil))))) (.cons 3 .req .leaf .nil)))
+    let v : Val := .struct [.none, .list [.struct [.prim 1, .none], .struct [.prim 2, .some (.prim 3)]], .prim 9]
+    addN 0 src tgt = true ∧ wfN (eraseN src) = true ∧ confN (eraseN src) v = true ∧
+      canon (maxDefsN tgt 0) (convertRow src tgt (shred src v)) =
+        [[⟨some 0, 0, 0⟩], [⟨none, 0, 1⟩, ⟨none, 1, 1⟩], [⟨none, 0, 1⟩, ⟨some 3, 1, 2⟩], [⟨none, 0, 1⟩, ⟨none, 1, 1⟩],
+          [⟨some 1, 0, 1⟩, ⟨some 2, 1, 1⟩], [⟨some 9, 0, 0⟩]] := by decide
 
 /-- Closest leaf sibling required: in a group instance shredded at levels `(r, d)` the sibling's
     column is the single entry `(x, r, d)`, with `d = lv.td` when the instance is present and
